@@ -101,6 +101,45 @@ fn has_ud(t: &Term) -> bool {
     }
 }
 
+/// `(λ.body) arg` contracted with all index arithmetic in u128; None if some index of the result exceeds usize::MAX
+fn wide_apply(body: &Term, arg: &Term) -> Option<Term> {
+    fn shift(t: &Term, by: u128, own: u128) -> Option<Term> {
+        Some(match t {
+            Var(i) => {
+                let i = *i as u128;
+                if i > own {
+                    let j = i + by;
+                    if j > usize::MAX as u128 {
+                        return None;
+                    }
+                    Var(j as usize)
+                } else {
+                    Var(i as usize)
+                }
+            }
+            Abs(b) => abs(shift(b, by, own + 1)?),
+            App(p) => app(shift(&p.0, by, own)?, shift(&p.1, by, own)?),
+        })
+    }
+    fn go(t: &Term, arg: &Term, d: u128) -> Option<Term> {
+        Some(match t {
+            Var(i) => {
+                let i = *i as u128;
+                if i == d {
+                    shift(arg, d - 1, 0)?
+                } else if i > d {
+                    Var((i - 1) as usize)
+                } else {
+                    Var(i as usize)
+                }
+            }
+            Abs(b) => abs(go(b, arg, d + 1)?),
+            App(p) => app(go(&p.0, arg, d)?, go(&p.1, arg, d)?),
+        })
+    }
+    go(body, arg, 1)
+}
+
 /// Single substitutions with indices close to usize::MAX.  An index is a usize; where the mathematically correct
 /// result needs an index above usize::MAX the crate must REFUSE (panic), never return a term in which the index has
 /// wrapped around to UD or to a bound variable.  The model (unbounded naturals) decides which case applies; the oracle
@@ -140,6 +179,20 @@ pub fn boundary(ctx: &mut Ctx) {
             let r = ctx.op(&line);
             ctx.nontrivial(&line);
             ctx.count(if r == "PANIC" { "boundary_refused" } else { "boundary_returned" });
+            // independent oracle in 128-bit arithmetic (neither the crate's nor the model's code): the substitution either
+            // needs an index above usize::MAX — then the crate must refuse — or has exactly this result
+            match wide_apply(body, a) {
+                None => {
+                    if r != "PANIC" {
+                        ctx.fail("apply returned although the correct result needs an index above usize::MAX", &[line.clone()]);
+                    }
+                }
+                Some(exp) => {
+                    if r != format!("ok {}", s(&exp)) {
+                        ctx.fail("apply near usize::MAX: result differs from capture-avoiding substitution computed in 128-bit arithmetic", &[line.clone()]);
+                    }
+                }
+            }
             if let Some(rest) = r.strip_prefix("ok ") {
                 let mut it = rest.split_ascii_whitespace();
                 if let Some(t) = codec::dec(&mut it) {
@@ -161,6 +214,56 @@ pub fn boundary(ctx: &mut Ctx) {
             }
         }
     }
+}
+
+/// a supercombinator by construction: λ^n.E where E is built from the n parameters and from inner supercombinators
+fn build_supercombinator(r: &mut Rng, levels: usize) -> Term {
+    let n = 1 + r.below(3);
+    fn body(r: &mut Rng, n: usize, levels: usize, budget: usize) -> Term {
+        if budget <= 1 {
+            return Var(1 + r.below(n));
+        }
+        let c = r.below(10);
+        if c < 3 && levels > 0 {
+            build_supercombinator(r, levels - 1)
+        } else if c < 9 {
+            let l = 1 + r.below(budget - 1);
+            app(body(r, n, levels, l), body(r, n, levels, budget - l))
+        } else {
+            Var(1 + r.below(n))
+        }
+    }
+    let budget = 4 + r.below(8);
+    let mut e = body(r, n, levels, budget);
+    // E itself must not be an abstraction (it would merge with the prefix): apply a parameter to it in that case
+    if let Abs(_) = e {
+        e = app(Var(1), e);
+    }
+    abs!(n, e)
+}
+
+/// one variable under an INNER abstraction is redirected to a binder of an enclosing level: closed, but not a supercombinator
+fn spoil_supercombinator(r: &mut Rng, t: &Term) -> Term {
+    fn go(r: &mut Rng, t: &Term, depth: usize, inner: bool, done: &mut bool) -> Term {
+        match t {
+            Var(i) => {
+                if inner && !*done && *i >= 1 && *i < depth && r.chance(1, 2) {
+                    *done = true;
+                    Var(depth) // the outermost binder in scope
+                } else {
+                    Var(*i)
+                }
+            }
+            Abs(b) => abs(go(r, b, depth + 1, inner, done)),
+            App(p) => {
+                let l = go(r, &p.0, depth, true, done);
+                let rr = go(r, &p.1, depth, true, done);
+                app(l, rr)
+            }
+        }
+    }
+    let mut done = false;
+    go(r, t, 0, false, &mut done)
 }
 
 // ------------------------------------------------------------------------------------------ C01
@@ -369,11 +472,66 @@ pub fn c03(ctx: &mut Ctx) {
     }
 }
 
+/// limits of 6 and more exhausted in the middle of a run, limit 0 / limits beyond the end of a long run, long splits
+fn long_run_checks(ctx: &mut Ctx, t: &Term, o: Order, cap: usize) {
+    let tr = stepwise(ctx, t, o, 40, cap);
+    if tr.broken {
+        return;
+    }
+    let k = tr.terms.len() - 1;
+    if k < 6 {
+        return;
+    }
+    ctx.count("long_runs");
+    let mut ls = vec![6usize, 7, 8, k - 1, k];
+    ls.push(6 + ctx.rng.below(k - 5));
+    ls.push(6 + ctx.rng.below(k - 5));
+    if tr.reached_nf {
+        ls.extend([0, k + 1, k + 3, 2 * k + 10]);
+    }
+    ls.sort();
+    ls.dedup();
+    for l in ls {
+        if l > k && !tr.reached_nf {
+            continue; // the trace was cut (size cap): nothing is known beyond its end
+        }
+        let line = reduce_op(o, l, t);
+        let r = ctx.op(&line);
+        ctx.nontrivial(&line);
+        let e = if l == 0 { k } else { l.min(k) };
+        if parse_reduce(&r) != Some((e, tr.terms[e].clone())) {
+            ctx.fail("a long limited run is not the prefix of the step-wise run (term or count): limit exhausted in the middle of a run, at its end, or beyond", &[line]);
+        }
+        ctx.count("long_limits");
+    }
+    for (n1, n2) in [(4usize, 4usize), (5, 3), (3, 6), (6, 6), (1, 9)] {
+        if n1 + n2 > k && !tr.reached_nf {
+            continue;
+        }
+        let line = format!("hist 2 {} {} {} {} {}", order_name(o), n1, order_name(o), n2, s(t));
+        let r = ctx.op(&line);
+        let mut it = r.split_ascii_whitespace();
+        let c1: usize = it.next().and_then(|x| x.parse().ok()).unwrap_or(usize::MAX);
+        let c2: usize = it.next().and_then(|x| x.parse().ok()).unwrap_or(usize::MAX);
+        let u = codec::dec(&mut it);
+        let e = (n1 + n2).min(k);
+        if c1 != usize::MAX && c2 != usize::MAX && (c1 > n1 || c2 > n2 || c1 + c2 != e || u.as_ref() != Some(&tr.terms[e])) {
+            ctx.fail("reduce(o,n) then reduce(o,m) differs from reduce(o,n+m) on a long run", &[line]);
+        }
+        ctx.count("long_splits");
+    }
+}
+
 // ------------------------------------------------------------------------------------------ C04
 pub fn c04(ctx: &mut Ctx) {
     let sz = sizes(ctx, 1);
     let uni = universe(ctx, &sz, true);
     let (steps, cap, maxsum) = if ctx.thorough { (12, 500, 7) } else { (8, 300, 5) };
+    for t in long_programs().iter() {
+        for &o in ORDERS.iter() {
+            long_run_checks(ctx, t, o, 3000);
+        }
+    }
     for t in &uni {
         ctx.count(bucket(size(t)));
         for &o in ORDERS.iter() {
@@ -441,6 +599,13 @@ pub fn c04(ctx: &mut Ctx) {
                 ctx.count("unlimited_checked");
             }
         }
+        // LONG runs: the limits above stop at 5 (7).  Every 6th term (and every named one) is traced for up to 40 steps under
+        // one order and reduced with limits in the MIDDLE of that run, at its end and beyond, and with splits summing to 8+
+        if ctx.n_long % 6 == 0 {
+            let o = *ctx.rng.pick(&ORDERS);
+            long_run_checks(ctx, t, o, cap);
+        }
+        ctx.n_long += 1;
         // a longer random sequence of limits
         if ctx.rng.chance(1, 4) {
             let o = *ctx.rng.pick(&ORDERS);
@@ -594,6 +759,17 @@ pub fn c06(ctx: &mut Ctx) {
             let tr = stepwise(ctx, t, o, steps, cap);
             if tr.reached_nf && !tr.broken {
                 nfs.push((o, tr.terms.last().unwrap().clone()));
+                // the whole run in ONE call (limit 0) must end where the single steps ended, with their count
+                let k = tr.terms.len() - 1;
+                if k >= 2 {
+                    let line = reduce_op(o, 0, t);
+                    let r = ctx.op(&line);
+                    ctx.nontrivial(&line);
+                    if parse_reduce(&r) != Some((k, tr.terms[k].clone())) {
+                        ctx.fail("an unlimited run of a normalising order differs from its own single steps (term or count)", &[line]);
+                    }
+                    ctx.count("unlimited_runs_vs_single_steps");
+                }
             }
         }
         for w in nfs.windows(2) {
@@ -680,11 +856,17 @@ pub fn c07(ctx: &mut Ctx) {
     };
     let mut uni = universe(ctx, &sz, false);
     uni.extend(divergent_family(ctx));
+    uni.extend(headform_family());
+    uni.extend(long_programs());
     let big = 3000usize; // step budget no correct implementation can need here (k <= 200 by construction)
     for t in &uni {
         ctx.count(bucket(size(t)));
         // terms on which some eager order diverges are the interesting ones; keep all that have a NF
-        let nf = match graph_normal_form(t, if ctx.thorough { 1500 } else { 400 }, 300) {
+        // a normal form exists if the breadth-first search of the reduction graph finds one, or — when that search is
+        // inconclusive because the graph is large — if leftmost-outermost reference reduction reaches one
+        let found = graph_normal_form(t, if ctx.thorough { 1500 } else { 400 }, 300)
+            .or_else(|| ref_normalise(t, 200, 3000).map(|(n, _)| n));
+        let nf = match found {
             Some(n) => n,
             None => {
                 ctx.count("no_nf_found");
@@ -723,6 +905,13 @@ pub fn c07(ctx: &mut Ctx) {
                     ctx.fail("NOR stopped at a term different from the normal form", &[line.clone()]);
                 } else if c != k {
                     ctx.fail("NOR needed a different number of steps than leftmost-outermost reduction", &[line.clone()]);
+                } else {
+                    // the property speaks about limit 0: issued once the budgeted run has shown that it returns
+                    let l0 = reduce_op(NOR, 0, t);
+                    let r0 = ctx.op(&l0);
+                    if parse_reduce(&r0) != Some((k, nf.clone())) {
+                        ctx.fail("NOR with limit 0 does not return the existing normal form", &[l0]);
+                    }
                 }
             }
             None => {}
@@ -736,6 +925,12 @@ pub fn c07(ctx: &mut Ctx) {
                     ctx.fail("HNO did not reach an existing normal form within the step budget", &[line.clone()]);
                 } else if u != nf {
                     ctx.fail("HNO stopped at a term different from the normal form", &[line.clone()]);
+                } else {
+                    let l0 = reduce_op(HNO, 0, t);
+                    let r0 = ctx.op(&l0);
+                    if parse_reduce(&r0).map(|x| x.1) != Some(nf.clone()) {
+                        ctx.fail("HNO with limit 0 does not return the existing normal form", &[l0]);
+                    }
                 }
             }
             None => {}
@@ -751,6 +946,53 @@ pub fn c07(ctx: &mut Ctx) {
 /// terms that HAVE a normal form but contain a diverging subterm that must be discarded unreduced, placed in
 /// every kind of position: argument of a redex, any argument of a variable-headed spine (first, middle, last),
 /// under a binder in an argument, inside the operator, nested two levels deep, inside pair/list bodies
+/// terms WITHOUT a normal form that have a weak head normal form and/or a head normal form: CBN resp. HSP must
+/// terminate on them (the rest of C07), placed at top level, under binders and in operator position
+fn headform_family() -> Vec<Term> {
+    let om = abs(app(Var(1), Var(1)));
+    let omega = app(om.clone(), om.clone());
+    let k = abs!(2, Var(2));
+    let y = lambda_calculus::combinators::Y();
+    let base: Vec<Term> = vec![
+        abs(omega.clone()),                                        // λ.Ω : whnf, no hnf
+        app(Var(1), omega.clone()),                                // x Ω : hnf and whnf, no nf
+        abs(app!(Var(1), omega.clone(), abs(omega.clone()))),      // λ.1 Ω (λ.Ω) : hnf
+        app(abs!(2, omega.clone()), Var(1)),                       // (λλ.Ω) a -> λ.Ω : whnf only
+        app!(k.clone(), abs(omega.clone()), omega.clone()),        // K (λ.Ω) Ω -> λ.Ω : whnf only, discards Ω
+        app(y.clone(), Var(1)),                                    // Y f, f free -> f (Y f): hnf, no nf
+        app(abs(app(Var(2), Var(1))), omega.clone()),              // (λ.2 1) Ω -> 1 Ω : hnf
+        abs(app(Var(2), app(abs(Var(1)), omega.clone()))),         // λ.2 ((λ.1) Ω) : hnf without touching the argument
+    ];
+    let mut out = Vec::new();
+    for g in &base {
+        out.push(g.clone());
+        out.push(abs(g.clone()));
+        out.push(app(abs(Var(1)), g.clone()));                     // I g -> g
+        out.push(app(abs!(2, Var(2)), g.clone()));                 // K g -> λ.g'
+        out.push(app(g.clone(), Var(1)));
+    }
+    out
+}
+
+/// closed programs with runs of 10–200 steps under every order (Church arithmetic and a list function): long limited
+/// runs, limits in the middle of a run, and terms the breadth-first search of C07 cannot finish
+pub fn long_programs() -> Vec<Term> {
+    use lambda_calculus::data::num::church::*;
+    let ch = |n: usize| n.into_church();
+    vec![
+        app!(add(), ch(3), ch(4)),
+        app!(mul(), ch(2), ch(3)),
+        app!(sub(), ch(4), ch(2)),
+        app!(pow(), ch(2), ch(3)),
+        app(pred(), ch(4)),
+        app(fac(), ch(3)),
+        app(is_zero(), ch(3)),
+        app!(leq(), ch(2), ch(3)),
+        app!(lambda_calculus::data::list::pair::length(), vec![ch(1), ch(2)].into_pair_list()),
+        app!(ch(3), abs(app(abs(Var(1)), Var(1))), abs(Var(1))),
+    ]
+}
+
 fn divergent_family(ctx: &mut Ctx) -> Vec<Term> {
     let om = abs(app(Var(1), Var(1)));
     let omega = app(om.clone(), om.clone());
@@ -872,7 +1114,8 @@ pub fn c08(ctx: &mut Ctx) {
                 if ud2 && !ud {
                     ctx.fail("reduction produced UD although the input has none", &[reduce_op(o, 1, &tr.terms[i - 1])]);
                 }
-                if t.has_free_variables() == false && u.has_free_variables() {
+                // closedness by the harness's own definition (not by the crate's has_free_variables, which is C18's subject)
+                if !ref_has_free(t, 0) && ref_has_free(u, 0) {
                     ctx.fail("closed term became open", &[reduce_op(o, 1, &tr.terms[i - 1])]);
                 }
             }
@@ -1003,7 +1246,21 @@ pub fn c18(ctx: &mut Ctx) {
     } else {
         Sizes { enum_size: 8, enum_free: 2, n_random: 20000, rand_size: 40 }
     };
-    let uni = universe(ctx, &sz, true);
+    let mut uni = universe(ctx, &sz, true);
+    // closed UD-free terms of all sizes (only ~6 % of the random universe is closed and UD-free, none of the large ones a
+    // supercombinator), supercombinators BUILT by construction with 2–4 levels of inner supercombinators, and for each a
+    // near miss in which one inner lambda refers to one binder of an enclosing level
+    let nc = if ctx.thorough { 20000 } else { 3000 };
+    for i in 0..nc {
+        let b = 6 + ctx.rng.below(55);
+        uni.push(random_closed(&mut ctx.rng, b, 0));
+        if i % 3 == 0 {
+            let levels = 2 + ctx.rng.below(3);
+            let sc = build_supercombinator(&mut ctx.rng, levels);
+            uni.push(spoil_supercombinator(&mut ctx.rng, &sc));
+            uni.push(sc);
+        }
+    }
     for t in &uni {
         ctx.count(bucket(size(t)));
         let line = format!("pred {}", s(t));
